@@ -183,7 +183,8 @@ class Program:
                             hit = True
                     if hit:
                         continue
-                fmt_like = re.search(r"fmt|to_string|format|unwrap|expect|panic|assert|print|write|Debug|Display", tgt or "") is not None
+                fmt_like = re.search(r"fmt|to_string|format|panic|assert|print|write|Debug|Display", tgt or "") is not None or \
+                    re.search(r"result::Result::<T, E>::(unwrap|expect)", tgt or "") is not None   # Option::unwrap/expect format nothing of T
                 for g in (c.get("generics") or []) + [c.get("impl_self") or ""]:
                     for ty in path_re.findall(g):
                         if ty in trait_impls:
